@@ -450,6 +450,9 @@ def gen_seq(rng, size='small', names=None, indexing='pos', disciplined=True):
                 sd = [[[c, rng.choice([UNIT, 32])] for c in cs], [], rng.choice([0, 10]), 0, nd['index'], nd['name']]
                 if not disciplined and rng.random() < 0.5:
                     sd[0].append([rng.choice([-1, cs[0], 99]), 40])
+                elif rng.random() < 0.35:
+                    # a slot naming a core twice: the check of allocate_slot has to count both entries
+                    sd[0].append([rng.choice(cs), rng.choice([UNIT, 24, 32, 40])])
                 ops.append(['nalloc', k, sd])
                 free_refs.append(('n', k, len(ops) - 1, 0))
             else:
